@@ -68,6 +68,15 @@ pub fn text_replay(args: &Args, s: &mut Summary) {
         }
         let bi = n % bases.len();
         let mut m = bases[bi].clone();
+        let mut base_back_here = base_back[bi].clone();
+        // half of the time the edited text is the ONLY non-empty optional text of the map
+        if f == "meta" && (n / 8) % 2 == 0 {
+            m.title_unicode.clear();
+            m.artist_unicode.clear();
+            m.source.clear();
+            m.tags.clear();
+            base_back_here = reencode(&m).expect("base round trip");
+        }
         let mfield = meta_fields[n % 8];
         let edited: &str = match f {
             "meta" => {
@@ -126,7 +135,7 @@ pub fn text_replay(args: &Args, s: &mut Summary) {
                 if !ok {
                     s.mismatch(&format!("edited-text:{f}"), json!({"field": edited, "value": v, "got": got, "model_predicts": want, "representable": c["rep"]}));
                 } else {
-                    let d = others_unchanged(&base_back[bi], &m2, &[edited]);
+                    let d = others_unchanged(&base_back_here, &m2, &[edited]);
                     if !d.is_empty() {
                         s.mismatch(&format!("edit-changes-other-field:{f}"), json!({"field": edited, "value": v, "changed": d}));
                     }
@@ -152,6 +161,11 @@ pub fn relations(args: &Args, s: &mut Summary) {
         let mut edits: Vec<Edit> = vec![];
         macro_rules! set { ($name:expr, $f:ident, $vals:expr) => { for val in $vals { let v1 = val.clone(); edits.push(($name,
             Box::new(move |m: &mut Beatmap| m.$f = v1.clone()), Box::new(|a: &Beatmap, b: &Beatmap| a.$f == b.$f))); } } }
+        set!("title_unicode", title_unicode, [String::new(), "t:u".to_string()]);
+        set!("artist_unicode", artist_unicode, [String::new(), "a u".to_string()]);
+        set!("source", source, [String::new(), "src".to_string()]);
+        set!("tags", tags, [String::new(), "x y z".to_string()]);
+        set!("title", title, [String::new(), "Re:Zero".to_string()]);
         set!("preview_time", preview_time, [0, 1, -1, 2147483647, -2147483647, 98765]);
         set!("audio_lead_in", audio_lead_in, [0.0, 1.0, 2147483647.0, -5.0]);
         set!("beat_divisor", beat_divisor, [1, 16, -3, 2147483647]);
